@@ -31,7 +31,7 @@ class World:
     level = "exploration"
     quick_runs = 4000
     thorough_budget_s = 900
-    run_timeout = 120.0
+    run_timeout = 40.0
     probe_min_runs = 1500
     required_probes = ["mixed_types_sum", "three_component_grouping_left", "three_component_grouping_right", "inplace_add",
                        "self_add", "add_inside_units_context", "constructed_under_units", "refused_temperature",
